@@ -208,6 +208,74 @@ CHECKS = {
              'code); a server returning more than requested is outside the '
              'fault model',
         design='3/C12'),
+    'C15': dict(
+        level='exploration',
+        technique='runtime monitoring by round-trip and differential '
+                  'oracles: asyncssh export/import vs PyCA loaders, '
+                  'ssh-keygen and openssl on generated keys, formats, '
+                  'ciphers, hashes, PBE versions, passphrases and comments',
+        text='Every generatable key type is exported in every private/'
+             'public format x cipher x hash x PBE version x passphrase class '
+             'and re-imported (equality, public half, comment, wrong '
+             'passphrase refused, documented refusals honoured); outputs are '
+             'read by PyCA, ssh-keygen and openssl and theirs by asyncssh; '
+             'certificates are compared field by field with ssh-keygen -L; '
+             'multi-key and key+certificate files are exercised.',
+        note='trusted: PyCA, OpenSSH 9.2 ssh-keygen, openssl as independent '
+             'implementations; a failing tool only counts when it reads a '
+             'reference file of the same container',
+        design='3/C15'),
+    'C16': dict(
+        level='exploration',
+        technique='runtime monitoring: boolean verify oracles over '
+                  'systematic single-byte edits, certificate validity grids '
+                  'on a substituted clock, hand-built certificates, SSHSIG '
+                  'cross-checks with ssh-keygen -Y and PyCA',
+        text='Signatures of every key type x algorithm verify and fail for '
+             'every sampled/enumerated edit of data, signature blob, key and '
+             'algorithm name (ECDSA/DSA re-encodings of the same (r,s) '
+             'excluded); certificates are accepted only inside the window, '
+             'with matching type, listed principal, known critical options '
+             'and an intact CA signature; SSHSIG validation agrees with '
+             'ssh-keygen -Y for message, namespace, principal, validity and '
+             'signer authorisation.',
+        note='trusted: PyCA and ssh-keygen as cross-checks; clock '
+             'substituted for asyncssh.public_key.time / sshsig.time',
+        design='3/C16'),
+    'C17': dict(
+        level='exploration',
+        technique='runtime monitoring: reference matcher written from the '
+                  'OpenSSH file-format documentation + metamorphic relations '
+                  '+ ssh-keygen -F cross-check over generated known_hosts / '
+                  'authorized_keys data and queries',
+        text='match_known_hosts and SSHAuthorizedKeys.validate results are '
+             'compared with the reference matcher for generated pattern '
+             'lists (wildcards, negation, CIDR, hashed, [host]:port with '
+             'fallback, markers) and option strings (quoting, escapes, '
+             'commas, repeats, from=, principals=); line permutation, '
+             'duplication, hashing and insertion of damaged key lines (bad '
+             'base64, truncated, unknown algorithm, impossible parameters) '
+             'must not change results.',
+        note='trusted: the reference matcher (cross-validated against '
+             'ssh-keygen -F on every run)',
+        design='3/C17'),
+    'C18': dict(
+        level='exploration',
+        technique='runtime monitoring by differential testing against the '
+                  'real ssh binary (ssh -G) on generated configurations, '
+                  'token table validated through Match exec, first-match '
+                  'reference model and hostile user names for the server '
+                  'half',
+        text='Generated ssh_config programs (Host/Match blocks with '
+             'negation and several criteria, Hostname rewrites, = and quote '
+             'spellings, repeated and accumulating keys, Include globs and '
+             'nesting, tokens, ${ENV}) resolve in asyncssh to what ssh -G '
+             'prints for 44 options; server configs follow the first-match '
+             'model and a %u template is never expanded with a user name '
+             'that could change the meaning of the path.',
+        note='trusted: OpenSSH 9.2 ssh -G; no sshd is available, so the '
+             'server half rests on the reference model',
+        design='3/C18'),
     'C19': dict(
         level='exploration',
         technique='runtime monitoring: reference reader model over the sent '
